@@ -415,6 +415,7 @@ func (b *Bar) serve(bs *bState) {
 			// bar can be aborted by canceling parent ctx without calling b.Abort
 			bs.aborted = !bs.completed()
 			b.bs = bs
+			verifPoint("bar.exit", 0, b)
 			close(b.bsOk)
 			b.container.bwg.Done()
 			return
@@ -424,6 +425,7 @@ func (b *Bar) serve(bs *bState) {
 
 func (b *Bar) render(tw int) {
 	fn := func(s *bState) {
+		verifPoint("bar.render", tw, b)
 		frame := new(renderFrame)
 		stat := s.newStatistics(tw)
 		r, err := s.draw(stat)
